@@ -1,1 +1,2 @@
 pub mod dsym;
+pub mod groups;
